@@ -44,19 +44,9 @@ fn main() {
     let c: ThreadCase = serde_json::from_str(inp.trim()).expect("bad case");
     let k = c.cfgs.len();
     let trs: Vec<Translator> = c.cfgs.iter().map(Translator::new).collect();
-    // reference: each evaluator alone, on this thread
-    let solo: Vec<Seq> = c
-        .cfgs
-        .iter()
-        .enumerate()
-        .map(|(i, cfg)| {
-            let shows: Vec<Showdown> = cfg.evaluator().into_iter().collect();
-            fingerprint(&trs[i], &shows)
-        })
-        .collect();
     // shared inputs, as in the multi-thread example
     let shared: Vec<Arc<(Vec<HandRange>, [Option<Card>; 5])>> = c.cfgs.iter().map(|cfg| Arc::new((cfg.ranges.iter().map(|r| r.to_espada()).collect(), e_board(&cfg.flop)))).collect();
-    for round in 0..c.rounds.max(1) {
+    let run_round = |round: usize| -> Vec<Option<Seq>> {
         let barrier = Arc::new(Barrier::new(k));
         let (tx, rx) = mpsc::channel::<(usize, Vec<Showdown>)>();
         let mut handles = vec![];
@@ -91,16 +81,40 @@ fn main() {
         }
         for h in handles {
             if h.join().is_err() {
-                fail("thread-panic", format!("a draining thread panicked in round {}", round));
+                fail("thread-panic", format!("a draining thread panicked in round {}{}", round, if round == usize::MAX { " (the cold round: the first iterators of the process, started at once)" } else { "" }));
             }
         }
+        got
+    };
+    // In half of the cases the very first iterators this process ever creates are the concurrent
+    // ones (whatever the library initialises lazily is initialised by k threads at once); the
+    // references are computed afterwards.
+    let cold: Option<Vec<Option<Seq>>> = if (c.handovers.len() + k) % 2 == 0 { Some(run_round(usize::MAX)) } else { None };
+    // reference: each evaluator alone, on this thread
+    let solo: Vec<Seq> = c
+        .cfgs
+        .iter()
+        .enumerate()
+        .map(|(i, cfg)| {
+            let shows: Vec<Showdown> = cfg.evaluator().into_iter().collect();
+            fingerprint(&trs[i], &shows)
+        })
+        .collect();
+    let compare = |got: &Vec<Option<Seq>>, what: &str| {
         for i in 0..k {
             match &got[i] {
                 Some(g) if *g == solo[i] => {}
-                Some(g) => fail("concurrent-differs", format!("evaluator {} of {} drained concurrently (round {}) gives {} showdowns / a different sequence than alone ({} showdowns)", i, k, round, g.len(), solo[i].len())),
+                Some(g) => fail("concurrent-differs", format!("evaluator {} of {} drained concurrently ({}) gives {} showdowns / a different sequence than alone ({} showdowns)", i, k, what, g.len(), solo[i].len())),
                 None => fail("concurrent-missing", format!("evaluator {} produced no result", i)),
             }
         }
+    };
+    if let Some(g) = &cold {
+        compare(g, "cold round: the first iterators of the process");
+    }
+    for round in 0..c.rounds.max(1) {
+        let got = run_round(round as usize);
+        compare(&got, &format!("round {}", round));
     }
     // showdowns shared between threads: the collected showdowns of each evaluator are read
     // (board, players, hands, winner flags, winner_len, probability) by several threads at the
